@@ -105,6 +105,8 @@ $x := 2 ** 3 ** 2;
 $x := -$y + obj:@s;
 $x := $a + ($b - ($c * 2));
 $x := $a % $b * $c;
+$x := ($a / $b / $c) * ($d / 2) / 3;
+scoreboard players operation @s obj /= #c obj;
 @s::tag.x = 5;
 @s::tag.list[0] = $x;
 ::mystorage.value = "abc";
@@ -166,6 +168,24 @@ $x.get();
 $x.reset();
 '''.strip().split("\n")
 
+# statements written over several lines (strengthening round 1): continuation lines after a bare word, a number, a
+# selector, an operator, each kind of closing bracket and a string
+MULTILINE = [
+    "tp @s ~ ~1\n        ~;",
+    "$x := $a /\n        $b /\n        $c;",
+    "$x := $a +\n        ($b - 2)\n        * $c;",
+    "execute as @a[tag=x]\n        at @s\n        if block ~ ~-1 ~ stone\n        run tp @s ~ ~1 ~;",
+    "execute\n        as @a\n        run say \"x\";",
+    "tellraw @a\n        {\"text\":\"a\"};",
+    "Text.tellraw(@a,\n        \"hello\"\n    );",
+    "if ($x == 1\n        && $y > 2)\n    {\n        say \"a\";\n    }\n    else\n    {\n        say \"b\";\n    }",
+    "give @s stone[custom_name='\"x\"']\n        {a:1b}\n        2;",
+    "data modify storage a:b x\n        set from entity @s Inventory[{Slot:0b}]\n        .tag;",
+    "$x = @s::Inventory[{Slot:0b}]\n        .tag.x;",
+    "scoreboard players operation @s obj\n        /= #c obj;",
+    "say \"multi\"\n    ;",
+]
+
 # statements for the load section (top level)
 TOP = r'''
 Timer.add(obj2, runOnce, @a, () => { say "done"; });
@@ -210,6 +230,8 @@ def single_statement_programs():
     out = [README] + ADVERSARIAL
     for s in BODY:
         out.append(PRELUDE + "function t() {\n    " + s + "\n}\n")
+    for s in MULTILINE:
+        out.append(PRELUDE + "function t() {\n    " + s + "\n}\n")
     for s in TOP:
         out.append(s + "\n")
     return out
@@ -228,6 +250,8 @@ def gen_program(rng, nfun=3):
                                                                       block(depth + 1, 1)))
             elif depth < 3 and x < 0.28:
                 lines.append("while ($i < %d) {\n%s\n$i++;\n}" % (rng.randint(1, 9), block(depth + 1, 1)))
+            elif x < 0.36:
+                lines.append(rng.choice(MULTILINE))
             else:
                 lines.append(rng.choice(BODY))
         return "\n".join("    " * (depth + 1) + ln for ln in lines)
